@@ -52,6 +52,7 @@
 import RotoV.Lemmas.Conc
 import RotoV.Lemmas.ConcShare
 import RotoV.Lemmas.ConcExec
+import RotoV.Model.ConcInstr
 import RotoV.Generated.C12Bounds
 import RotoV.Generated.C12Sharing
 
@@ -965,6 +966,137 @@ theorem c12_on_tree
     prog hacc sem site hadm hsync calls m0 hinit sched
 
 end T5
+
+/-! ## T6 — every instruction kind of the source is inside the model
+
+The list of `lir::Instruction` kinds, their fields (name, type class) and the
+memory / call operations the machine-code generator emits for each kind are
+regenerated from `src/lir/mod.rs` and `src/codegen/mod.rs` (`Generated/C12Instr`).
+`Classify.shapeOf` / `Classify.roles` are exhaustive matches over the generated
+`Kind`, so a new kind does not compile until it is classified. -/
+
+section T6
+open Lir Classify Gen.C12Instr
+
+/-- the generated field list of every kind is the classified one (names, order)
+and every field that can carry a variable has a role fitting its type -/
+theorem instr_kinds_classified : kinds.all kindClassified = true := by decide
+
+/-- `kinds` lists every constructor of the generated enum -/
+theorem instr_kinds_complete : ∀ k : Kind, k ∈ kinds := by
+  intro k; cases k <;> decide
+
+/-- the roles given to the fields of a kind are exactly what the model
+instruction it is parsed to accounts for (defines a variable / number of
+operands written through / hands operands to a callee) -/
+theorem roles_match_model : ∀ k : Kind, roleSummary (roles k) = shapeSummary (shapeOf k) := by
+  intro k; cases k <;> decide
+
+/-- **tie to the machine-code generator**: for every kind, the memory / call
+operations `FuncGen::instruction` emits are those the model's step assumes — a
+`store` only for `Write`, a block copy only for `Copy` / `Initialize`, a `load`
+only for `Read`, direct calls only for `Call` / `CallRuntime`, indirect calls
+into Rust glue only for `InitString` / `Clone` / `Eq` / `Drop`, and NOTHING that
+touches memory or other code for the arithmetic, comparison, address and
+control kinds. -/
+theorem codegen_ops_match_model : ∀ k : Kind, codegenMatches k = true := by
+  intro k; cases k <;> decide
+
+/-- every model instruction stays within the summary of its shape -/
+theorem model_within_shape (ins : Instr) :
+    ((defVar ins).isSome = true → (shapeSummary (Shape.of ins)).defines = true)
+    ∧ (writeOps ins).length ≤ (shapeSummary (Shape.of ins)).writes
+    ∧ (handedOps ins ≠ [] → (shapeSummary (Shape.of ins)).handed = true) := by
+  cases ins with
+  | call f to isPtr ctx retPtr args =>
+    cases retPtr <;> simp [defVar, writeOps, handedOps, Shape.of, shapeSummary]
+  | drop v hasFn => cases hasFn <;> simp [defVar, writeOps, handedOps, Shape.of, shapeSummary]
+  | _ => simp [defVar, writeOps, handedOps, Shape.of, shapeSummary]
+
+/-- what the verified checker demands, by roles: every operand written through
+has class `loc`, every operand handed to a callee is not of class `any` -/
+theorem okInstr_demands (cert : Var → Cls) (ins : Instr) (h : okInstr cert ins = true) :
+    (∀ o ∈ writeOps ins, clsOp cert o = .loc) ∧ (∀ o ∈ handedOps ins, clsOp cert o ≠ .any) := by
+  cases ins with
+  | call f to isPtr ctx retPtr args =>
+    simp only [okInstr, Bool.and_eq_true, List.all_eq_true] at h
+    refine ⟨?_, fun o ho => by simpa using h.2 o ho⟩
+    cases retPtr with
+    | none => simp [writeOps]
+    | some r => simpa [writeOps, clsOp] using h.1.2
+  | callRt args =>
+    simp only [okInstr, List.all_eq_true] at h
+    exact ⟨by simp [writeOps], fun o ho => by simpa using h o ho⟩
+  | drop v hasFn =>
+    cases hasFn with
+    | true => simpa [writeOps, handedOps, okInstr] using h
+    | false => simp [writeOps, handedOps]
+  | initString to => simpa [writeOps, handedOps, okInstr, clsOp] using h
+  | initBytes to => simpa [writeOps, handedOps, okInstr, clsOp] using h
+  | write to val => simpa [writeOps, handedOps, okInstr] using h
+  | copy to src n => simpa [writeOps, handedOps, okInstr] using h
+  | clone to src => simpa [writeOps, handedOps, okInstr] using h
+  | _ => simp [writeOps, handedOps]
+
+theorem flatMap_atarget (env : Env) (args : List Operand) :
+    args.flatMap (fun o => atarget (evalOp env o)) = argTargets env args := by
+  induction args with
+  | nil => rfl
+  | cons a as ih => simp [argTargets, ih]
+
+/-- the write events of the checker's semantics are exactly those of the
+operands with a writing role — no instruction writes anywhere else -/
+theorem events_by_roles (env : Env) (nd : Val) (ins : Instr) :
+    (step env nd ins).2 = (writeOps ins).flatMap (fun o => wtarget (evalOp env o))
+      ++ (handedOps ins).flatMap (fun o => atarget (evalOp env o)) := by
+  cases ins with
+  | call f to isPtr ctx retPtr args =>
+    cases retPtr with
+    | none => simp only [step, writeOps, handedOps, optTargets, flatMap_atarget, List.flatMap_nil]
+    | some r =>
+      simp only [step, writeOps, handedOps, optTargets, List.flatMap_cons,
+        List.flatMap_nil, List.append_nil]
+      rw [flatMap_atarget]
+      rfl
+  | callRt args => simp only [step, writeOps, handedOps, flatMap_atarget, List.flatMap_nil, List.nil_append]
+  | drop v hasFn => cases hasFn <;> simp [step, writeOps, handedOps]
+  | _ => simp [step, writeOps, handedOps, evalOp]
+
+/-- and only the variable with the `defines` role changes -/
+theorem regs_by_roles (env : Env) (nd : Val) (ins : Instr) (v : Var) (hv : defVar ins ≠ some v) :
+    (step env nd ins).1 v = env v := by
+  cases ins with
+  | call f to isPtr ctx retPtr args =>
+    cases to with
+    | none => rfl
+    | some w =>
+      have : v ≠ w := fun e => hv (by simp [defVar, e])
+      simp [step, setOpt, Env.set, this]
+  | assign to val => have : v ≠ to := fun e => hv (by simp [defVar, e]); simp [step, Env.set, this]
+  | constAddr to n => have : v ≠ to := fun e => hv (by simp [defVar, e]); simp [step, Env.set, this]
+  | funcAddr to => have : v ≠ to := fun e => hv (by simp [defVar, e]); simp [step, Env.set, this]
+  | arith to p => have : v ≠ to := fun e => hv (by simp [defVar, e]); simp [step, Env.set, this]
+  | offset to s n => have : v ≠ to := fun e => hv (by simp [defVar, e]); simp [step, Env.set, this]
+  | read to p s => have : v ≠ to := fun e => hv (by simp [defVar, e]); simp [step, Env.set, this]
+  | eq to l r => have : v ≠ to := fun e => hv (by simp [defVar, e]); simp [step, Env.set, this]
+  | _ => rfl
+
+/-- non-vacuity of T6: the classification distinguishes the kinds (a store
+kind, a pure kind, a glue kind), and a misclassification is caught — `Write`
+checked as arithmetic would neither match its roles nor the generated codegen
+operations -/
+example :
+    shapeOf .kWrite = .write ∧ shapeOf .kAdd = .arith ∧ shapeOf .kEq = .eq
+    ∧ roleSummary (roles .kWrite) ≠ shapeSummary .arith
+    ∧ (codegenOps .kWrite).filter isMemOp ≠ expectedMemOps .arith
+    ∧ (codegenOps .kAdd).filter isMemOp = [] := by decide
+
+example :
+    (writeOps (.call 1 (some 3) false none (some 4) [.var 5]) = [.var 4])
+    ∧ okInstr (fun v => if v = 4 then .loc else .sc) (.call 1 (some 3) false none (some 4) [.var 5]) = true
+    ∧ okInstr (fun _ => .sc) (.call 1 (some 3) false none (some 4) [.var 5]) = false := by decide
+
+end T6
 
 namespace T5Example
 open Lir Exec
